@@ -1,4 +1,5 @@
 import DadiVerif.Model.Memo
+import DadiVerif.Driver.Memo
 import Mathlib.Data.List.Basic
 /-! memo transparency: if the key determines the value, every call history returns the pure function's values -/
 namespace DadiVerif
@@ -107,6 +108,160 @@ theorem Memo.transparent_on (P : α → Prop) (key : α → κ) (f : α → ν) 
     obtain ⟨h1, h2⟩ := ih (Memo.call key f c a).1 hs (fun x hx => hP x (List.mem_cons_of_mem _ hx))
     simp only [Memo.runOps, List.map_cons]
     exact ⟨by rw [hv, h1], h2⟩
+
+end
+
+/-! ### alias flow: the may-alias analysis `Driver.Memo.arun` is sound for the path semantics of a skeleton -/
+section
+open Gen.Effects Driver.Memo
+
+/-- outcome of running a skeleton: normal exit with a state, or the function has returned / raised -/
+inductive Flow.Out where
+  | normal (c : Nat → Bool)
+  | stopped
+
+/-- path semantics of a skeleton with respect to one tracked object: `c x = true` iff name `x` holds the object;
+    `Exec f c m o`: some execution of `f` from `c` writes to the object iff `m`, and ends in `o` -/
+inductive Flow.Exec : Flow → (Nat → Bool) → Bool → Flow.Out → Prop where
+  | fresh (x c) : Exec (.fresh x) c false (.normal (fun y => if y = x then false else c y))
+  | aliasPick (x ys c y) : y ∈ ys → Exec (.alias x ys) c false (.normal (fun z => if z = x then c y else c z))
+  | aliasCopy (x ys c) : Exec (.alias x ys) c false (.normal (fun z => if z = x then false else c z))
+  | mutate (x c) : Exec (.mutate x) c (c x) (.normal c)
+  | skip (c) : Exec .skip c false (.normal c)
+  | stop (c) : Exec .stop c false .stopped
+  | seqNormal {a b c m1 c1 m2 o} : Exec a c m1 (.normal c1) → Exec b c1 m2 o → Exec (.seq a b) c (m1 || m2) o
+  | seqStop {a b c m1} : Exec a c m1 .stopped → Exec (.seq a b) c m1 .stopped
+  | iteL {a b c m o} : Exec a c m o → Exec (.ite a b) c m o
+  | iteR {a b c m o} : Exec b c m o → Exec (.ite a b) c m o
+  | loopZero (a c) : Exec (.loop a) c false (.normal c)
+  | loopStep {a c m1 c1 m2 o} : Exec a c m1 (.normal c1) → Exec (.loop a) c1 m2 o → Exec (.loop a) c (m1 || m2) o
+  | loopStop {a c m1} : Exec a c m1 .stopped → Exec (.loop a) c m1 .stopped
+
+/-- the abstract state covers the concrete one -/
+def Flow.Covers (S : List Nat) (c : Nat → Bool) : Prop := ∀ x, c x = true → x ∈ S
+
+theorem Flow.iterJoin_mono (step : List Nat → List Nat) (k : Nat) : ∀ S x, x ∈ S → x ∈ iterJoin step k S := by
+  induction k with
+  | zero => intro S x h; simpa [iterJoin] using h
+  | succ k ih => intro S x h; simp only [iterJoin]; exact ih _ _ (List.mem_append_left _ h)
+
+/-- soundness of the body at a post-fixpoint gives soundness of the loop -/
+theorem Flow.loop_inv (a : Flow) (H Hout : List Nat)
+    (hbody : ∀ c, Flow.Covers H c → ∀ m o, Flow.Exec a c m o → m = false ∧ ∀ c', o = .normal c' → Flow.Covers Hout c')
+    (hpost : ∀ x, x ∈ Hout → x ∈ H) :
+    ∀ f c m o, Flow.Exec f c m o → f = .loop a → Flow.Covers H c → m = false ∧ ∀ c', o = .normal c' → Flow.Covers H c' := by
+  intro f c m o h
+  induction h with
+  | loopZero a' c =>
+    intro _ hc
+    exact ⟨rfl, fun c' hc' => by cases hc'; exact hc⟩
+  | loopStep h1 h2 _ ih2 =>
+    intro hf hc
+    cases hf
+    obtain ⟨hm1, hn1⟩ := hbody _ hc _ _ h1
+    have hc1 : Flow.Covers H _ := fun x hx => hpost x (hn1 _ rfl x hx)
+    obtain ⟨hm2, hn2⟩ := ih2 rfl hc1
+    exact ⟨by simp [hm1, hm2], hn2⟩
+  | loopStop h1 _ =>
+    intro hf hc
+    cases hf
+    obtain ⟨hm1, _⟩ := hbody _ hc _ _ h1
+    exact ⟨hm1, fun c' hc' => by cases hc'⟩
+  | _ => intro hf; cases hf
+
+theorem Flow.sound (fuel : Nat) (f : Flow) : ∀ (S : List Nat) (c : Nat → Bool), Flow.Covers S c → (arun fuel f S).2 = false →
+    ∀ m o, Flow.Exec f c m o → m = false ∧ ∀ c', o = .normal c' → Flow.Covers (arun fuel f S).1 c' := by
+  induction f with
+  | fresh x =>
+    intro S c hc _ m o h
+    cases h
+    refine ⟨rfl, fun c' hc' => ?_⟩
+    cases hc'
+    intro y hy
+    by_cases hyx : y = x
+    · simp [hyx] at hy
+    · simp [hyx] at hy
+      simp [arun, hc y hy, hyx]
+  | «alias» x ys =>
+    intro S c hc _ m o h
+    cases h with
+    | aliasPick _ _ _ y hy =>
+      refine ⟨rfl, fun c' hc' => ?_⟩
+      cases hc'
+      intro z hz
+      by_cases hzx : z = x
+      · subst hzx
+        simp at hz
+        have : ys.any (S.contains ·) = true := List.any_eq_true.mpr ⟨y, hy, by simpa using hc y hz⟩
+        simp only [arun]
+        rw [if_pos this]
+        exact List.mem_cons_self
+      · simp [hzx] at hz
+        have := hc z hz
+        simp only [arun]
+        split <;> simp [this, hzx]
+    | aliasCopy =>
+      refine ⟨rfl, fun c' hc' => ?_⟩
+      cases hc'
+      intro z hz
+      by_cases hzx : z = x
+      · simp [hzx] at hz
+      · simp [hzx] at hz
+        have := hc z hz
+        simp only [arun]
+        split <;> simp [this, hzx]
+  | mutate x =>
+    intro S c hc hflag m o h
+    cases h
+    refine ⟨?_, fun c' hc' => by cases hc'; simpa [arun] using hc⟩
+    simp [arun] at hflag
+    by_contra hne
+    have : c x = true := by simpa using hne
+    exact hflag (hc x this)
+  | skip =>
+    intro S c hc _ m o h
+    cases h
+    exact ⟨rfl, fun c' hc' => by cases hc'; simpa [arun] using hc⟩
+  | stop =>
+    intro S c hc _ m o h
+    cases h
+    exact ⟨rfl, fun c' hc' => by cases hc'⟩
+  | seq a b iha ihb =>
+    intro S c hc hflag m o h
+    simp only [arun, Bool.or_eq_false_iff] at hflag
+    cases h with
+    | seqNormal h1 h2 =>
+      obtain ⟨hm1, hn1⟩ := iha S c hc hflag.1 _ _ h1
+      obtain ⟨hm2, hn2⟩ := ihb _ _ (hn1 _ rfl) hflag.2 _ _ h2
+      exact ⟨by simp [hm1, hm2], fun c' hc' => by simpa [arun] using hn2 c' hc'⟩
+    | seqStop h1 =>
+      obtain ⟨hm1, _⟩ := iha S c hc hflag.1 _ _ h1
+      exact ⟨hm1, fun c' hc' => by cases hc'⟩
+  | ite a b iha ihb =>
+    intro S c hc hflag m o h
+    simp only [arun, Bool.or_eq_false_iff] at hflag
+    cases h with
+    | iteL h1 =>
+      obtain ⟨hm, hn⟩ := iha S c hc hflag.1 _ _ h1
+      exact ⟨hm, fun c' hc' x hx => by simp only [arun]; exact List.mem_append_left _ (hn c' hc' x hx)⟩
+    | iteR h1 =>
+      obtain ⟨hm, hn⟩ := ihb S c hc hflag.2 _ _ h1
+      exact ⟨hm, fun c' hc' x hx => by simp only [arun]; exact List.mem_append_right _ (hn c' hc' x hx)⟩
+  | loop a iha =>
+    intro S c hc hflag m o h
+    simp only [arun] at hflag ⊢
+    split at hflag
+    · rename_i hpost
+      rw [if_pos hpost]
+      have hpost' : ∀ x, x ∈ (arun fuel a (iterJoin (fun acc => (arun fuel a acc).1) fuel S)).1 →
+          x ∈ iterJoin (fun acc => (arun fuel a acc).1) fuel S := by
+        intro x hx
+        have := List.all_eq_true.mp hpost x hx
+        simpa using this
+      have hcH : Flow.Covers (iterJoin (fun acc => (arun fuel a acc).1) fuel S) c :=
+        fun x hx => Flow.iterJoin_mono _ _ _ _ (hc x hx)
+      exact Flow.loop_inv a _ _ (fun c hc m o h => iha _ c hc hflag m o h) hpost' _ _ _ _ h rfl hcH
+    · simp at hflag
 
 end
 end DadiVerif
